@@ -14,3 +14,9 @@ PROP = dict(
           rc('C09_any', 'harness/C09_any.cpp', 'tbb-asan')],
 )
 PROP['rule'] += ' Round-3 extension: payload types also include a trivially copyable type with default member initialisers and its own operator=(U); plus histories of emplace() whose payload constructor throws on request (the optional is then empty and nothing is destroyed twice).'
+
+# round five: Any values crossing a module boundary (the C10 host/plugin pair: C10_plugin.so loaded with dlopen RTLD_LOCAL,
+# types defined in both images, and same-named types in unnamed namespaces): is<T>() / get<T>() succeed for exactly the stored type
+PROP['bins'] += [dict(name='C10_plugin.so', src='harness/C10_plugin.cpp', cfg=None, kind='aux', flags='-shared -fPIC'),
+                 rc('C10_flatmap', 'harness/C10_flatmap.cpp', 'tbb-asan', env={'PBT_ONLY': 'parameters_across_modules'})]
+PROP['rule'] += ' Round-5 extension: the across-modules histories of C10 (binary C10_flatmap, property parameters_across_modules only) also run here: Any values set in one image and asked for in another (dlopen RTLD_LOCAL), types defined in both images and two different types of one name in unnamed namespaces; is<T>() / get<T>() succeed for exactly the stored type.'
